@@ -36,6 +36,7 @@ type excCase struct {
 	code, msg  string
 	tag        string
 	prev       [][2]int // (line, col) pairs reported through the same Reporter before this one
+	col0off    int      // with col == 0: byte offset into the line of the reported position
 }
 
 func (c excCase) proto() string {
@@ -70,7 +71,26 @@ func excerptImpl(c excCase) (out string) {
 		p := fset.Position(pos)
 		return pos, p.Line == line && p.Column == col
 	}
-	pos, ok := posOf(c.line, c.col)
+	var pos token.Pos
+	var ok bool
+	if c.col == 0 {
+		// a //line directive without a column: positions on that line report column 0
+		off := 0
+		if c.line >= 1 && c.line <= f.LineCount() {
+			off = int(f.LineStart(c.line)) - f.Base()
+		}
+		if off+c.col0off > len(c.claimed) {
+			return "skip"
+		}
+		f.AddLineColumnInfo(off, "x.go", c.line, 0)
+		pos = f.Pos(off + c.col0off)
+		if p := fset.Position(pos); p.Line != c.line || p.Column != 0 {
+			return "skip"
+		}
+		ok = true
+	} else {
+		pos, ok = posOf(c.line, c.col)
+	}
 	if !ok {
 		return "skip"
 	}
@@ -356,6 +376,18 @@ func corrExcerpt(o corrOpts) *res.Summary {
 				if r.Bool() {
 					c.prev = append(c.prev, [2]int{li, rng.Pick(r, cols)})
 				}
+			}
+			cases = append(cases, c)
+		}
+		// column 0 (generated code: //line directive without a column)
+		for i := 0; i < 20; i++ {
+			n := []int{0, 1, 5, 40, M - 1, M, M + 1, 2*M + 3}[i%8]
+			lines := []string{"a", genLine(r, n, i%2), "c", genLine(r, n, 0)}
+			content := strings.Join(lines, "\n") + "\n"
+			li := []int{2, 4, 1}[i%3]
+			c := excCase{claimed: content, actual: content, line: li, col: 0, code: "CTOR03", msg: "generated", tag: "column-zero"}
+			if ll := len(lines[li-1]); ll > 0 {
+				c.col0off = r.Intn(ll)
 			}
 			cases = append(cases, c)
 		}
